@@ -224,5 +224,60 @@ def run(seed, tier, driver):
         res.stats.case(('type', ty), sample=None)
         res.stats.hit('type_values')
         check_reaction('type%d' % ty, stream, 'ESTABLISHED', outs, final)
+    queued_requests(res, r, tier, remote_as)
     res.exhaustive = tier != 'quick'
     return res
+
+
+def queued_requests(res, r, tier, remote_as):
+    """Implementation only: the application has queued requests on the handler (`inter_mq`: UPDATEs - one of which cannot be
+    encoded - and nothing else), which the agent carries out when a KEEPALIVE arrives.  The stream [KEEPALIVE, UPDATE,
+    KEEPALIVE, KEEPALIVE, UPDATE, KEEPALIVE] is delivered in one piece, octet by octet and in random segmentations: every
+    chunk is handled in bounded time, and what the agent reports, writes and ends up as does not depend on the cuts."""
+    pool = dict(SG.message_pool(remote_as))
+    stream = b''.join(pool[k] for k in ('keepalive', 'update_ok', 'keepalive', 'keepalive', 'update_withdraw', 'keepalive'))
+    queues = [
+        [],
+        [{'type': 'update', 'msg': {'attr': {1: 0, 2: [], 3: '10.0.0.1'}, 'nlri': ['10.7.0.0/16'], 'withdraw': []}}],
+        [{'type': 'update', 'msg': {'attr': {1: 0, 2: [], 3: '10.0.0.300'}, 'nlri': ['10.7.0.0/16'], 'withdraw': []}}],
+        [{'type': 'update', 'msg': {'attr': {1: 0, 2: [], 3: '10.0.0.1'}, 'nlri': ['10.7.0.0/16'], 'withdraw': []}},
+         {'type': 'update', 'msg': {'attr': {1: 0, 2: [], 3: 'not-an-address'}, 'nlri': ['10.8.0.0/16'], 'withdraw': []}},
+         {'type': 'update', 'msg': {'attr': {1: 0, 2: [], 3: '10.0.0.1'}, 'nlri': [], 'withdraw': ['10.7.0.0/16']}}],
+    ]
+    cutsets = [[], list(range(1, len(stream)))] + [sorted(r.sample(range(1, len(stream)), k)) for k in (1, 2, 5, 9)]
+    for qi, queue in enumerate(queues):
+        base = None
+        for cuts in cutsets:
+            sim = S.Sim({})
+            for ev in ({'k': 'boot'}, {'k': 'connok', 'c': 0},
+                       {'k': 'chunk', 'c': 0, 'hex': SG.frame(1, SG.open_body(remote_as, 90, caps=SG.std_caps(remote_as))).hex()},
+                       {'k': 'chunk', 'c': 0, 'hex': SG.KEEPALIVE.hex()}):
+                sim.step(ev)
+            for item in queue:
+                sim.handler.inter_mq.put(dict(item, msg=dict(item['msg'])))
+            outs, hang = [], False
+            for ch in cut(stream, cuts):
+                if not sim.enabled({'k': 'chunk', 'c': 0}):
+                    break
+                o = sim.step({'k': 'chunk', 'c': 0, 'hex': ch.hex()})
+                outs += o['outs']
+                if o.get('hang') or o.get('escaped'):
+                    hang = True
+                    break
+            final = sim.observe()
+            # (the queued sends are written by the reactor thread after the chunk that triggered them: where the writes fall
+            # BETWEEN the reports is the stand-in's flush point, not the agent's doing - both sequences are compared in order)
+            got = ([o for o in outs if o[0] != 'write'], [o for o in outs if o[0] == 'write'], final['state'], final['stats'],
+                   final['conns'])
+            res.stats.case(('queued', qi, tuple(cuts)), sample=None)
+            res.stats.hit('queued_requests')
+            if hang:
+                res.fail('C04', 'handling of a chunk did not finish in bounded time / raised while the application had requests queued',
+                         {'queue': queue, 'stream': stream.hex(), 'cuts': cuts}, key='framing-hang')
+                break
+            if base is None:
+                base = got
+            elif got != base:
+                res.fail('C04', 'with requests of the application queued, reaction depends on the TCP segmentation',
+                         {'queue': queue, 'stream': stream.hex(), 'cuts': cuts, 'one_piece': base, 'cut': got}, key='framing-segmentation')
+                break
